@@ -23,7 +23,7 @@ def model_features(model):
 
 @st.composite
 def model_and_graphs(draw, n_graphs, max_nodes, sql=False, **model_kw):
-    model = draw(MI.model_ir(max_classes=5, grammar="orm", extras=True, uid=True, allow_underscore=True, allow_mixin=True, **model_kw))
+    model = draw(MI.model_ir(max_classes=5, grammar="orm", extras=True, uid=True, allow_underscore=True, allow_mixin=True, allow_kw_only=True, **model_kw))
     graphs = [draw(G.graph_ir(model, max_nodes=max_nodes, sql=sql)) for _ in range(n_graphs)]
     return {"model": model, "graphs": graphs, "shared_state": draw(st.booleans())}
 
